@@ -3,24 +3,28 @@ import sys
 
 sys.path.insert(0, os.path.join(os.path.dirname(os.path.dirname(os.path.abspath(__file__))), "translate"))
 import c17_attr_table
+import c17_accept_table
 
 SPEC = {
-    "translators": [c17_attr_table.attr_table],
+    "translators": [c17_attr_table.attr_table, c17_accept_table.accept_table],
     "trusted": [
         "C17: translate/c17_attr_table.py (reads every attribute loop of duke/src/class_reader.rs, skip_attributes, the Break arms and both passes over the members into coq/C17/AttrTable.v; fails closed on any arm it cannot classify)",
+        "C17: translate/c17_accept_table.py (reads, per level, the visit call of every reader arm (class_reader.rs), every fn of the five tree-builder impls (visitor/implementations/tree.rs: field and insert_if_empty / assignment / extend / push) and every statement of the five accept() functions (tree/{class,field,method,method/code,record}.rs: order, interest flag, emptiness guard, visit call, Break arms, the declined visit_code) into coq/C17/AcceptTable.v; fails closed on any fn body / statement it cannot classify)",
         "C17: the hand-written Gallina model coq/C17/Model.v of class_reader.rs at the level of attribute framing (header, pool entry sizes, counts, name index, attribute_length, skip / read, nested Code and Record), driven by the generated tables",
-        "C17: the recording visitors of harness/src/bin/c17/rec.rs (written against duke's public visitor traits; fields and record components through duke's own tree builders) and the projection / position / replay oracles of harness/src/bin/c17/main.rs",
-        "C17: replay (ClassFile::accept) is checked on the implementation only (tree equality, event multisets for the full and for every masked visitor); no Coq model of tree/*.rs accept",
+        "C17: the hand-written Gallina model coq/C17/Replay.v of the tree-building visitor and of accept(): an interpreter of the generated tables (which event fills which field and how; which statement emits what under which flag); the contents of a field are the body bytes of the attribute(s) that filled it, of which the model reads only the leading u16 (number of annotations / rows, which decides is_empty()); instructions, exception table, last label and labels are not modelled (their statements are in the table, their events are not in the vocabulary), max_stack / max_locals are always both present (as after any read)",
+        "C17: the recording visitors of harness/src/bin/c17/rec.rs (written against duke's public visitor traits; fields and record components through duke's own tree builders) and the projection / position / replay oracles of harness/src/bin/c17/main.rs; harness/src/bin/c17/edge.rs (edits of class files through fbh::classfile::raw)",
     ],
     "assumptions": [
         "attribute bodies that the reader parses by their own grammar consume exactly attribute_length bytes (theorems: hypothesis g_resp on an arbitrary grammar function g; correspondence: g_len, and every compared stream is checked by the model to decode to structures satisfying wf_b)",
-        "visitors are total: a visit_* call returns Ok (the tree builder's `only one X attribute is allowed` errors are outside the model)",
-        "contents of parsed attributes, instruction decoding and label creation are not modelled; that a partial visitor receives the same contents (labels up to renaming, a label may be absent where nothing delivered refers to it) is checked by the harness oracle on the implementation",
-        "field and record-component visitors cannot be written outside duke (crate-private traits): at these two levels the implementation is observed through duke's own tree builders (all interests; accept/decline only), their events as a multiset",
+        "visitors other than the tree builder are total: a visit_* call returns Ok; the tree builder's `only one X attribute is allowed` errors ARE modelled (build = Err), and the correspondence run checks that the model's builder succeeds exactly when duke::read_class does",
+        "replay theorems: hypothesis `build strict T AT (events of the full read) = Ok tree` (decidable; evaluated by the correspondence run on every class); that every wf_b class without duplicate at-most-once attributes builds is not proved (see stated_not_proved)",
+        "contents of parsed attributes, instruction decoding and label creation are not modelled; that a partial visitor receives the same contents (labels up to renaming, a label may be absent where nothing delivered refers to it) and that the replayed contents equal the read contents is checked by the harness oracle on the implementation (debug text of every value, tree PartialEq)",
+        "field and record-component visitors cannot be written outside duke (crate-private traits): at these two levels the implementation is observed through duke's own tree builders (all interests; accept/decline only), their events as a multiset, an annotations attribute without annotations is invisible there",
         "seeking past the end of the stream is not modelled (the model answers Err); streams in the domain of the theorems never do it",
     ],
     "stated_not_proved": [
-        "replay : forall c v, wf c -> events (ClassFile::accept (tree (enc c)) v) == project v (events (read (enc c) v_full)) with attribute-level events as a multiset and members / instructions in order, and tree (accept (tree bs) tree_builder) = tree bs  -- no Coq model of duke/src/tree/*.rs accept(); checked on the implementation by the harness for every class and every visitor configuration (3 divergences found there were fixed in /repo: 7fcc9dd, 39dba73, 72c6a4f)",
-        "content_projection : the VALUES handed to a partial visitor equal those of the full read (the Coq events carry the raw body bytes of each delivered attribute, not the parsed values; equality of the parsed values is the harness oracle)",
+        "build_succeeds : forall c, wf_b tables c = true -> no item of c has two attributes of one at-most-once kind -> exists tree, build false tables accept_tables_gen (full read of enc c) = Ok tree  -- the replay theorems carry `build ... = Ok tree` as a (decidable) hypothesis instead; the correspondence run evaluates it on every class and compares it with duke::read_class succeeding",
+        "replay_full : forall c, wf_b tables c = true -> forall tree, build false ... = Ok tree -> forall v, sim_trace (accept_class v tree) (project v (full read))  -- FALSE as stated (C17_replay_full_refuted); proved restricted by the decidable class replay_inexact (C17_replay_known / C17_replay_decidable); witnesses C17_replay_empty_annotations_refuted (finding F20a), C17_replay_rowless_locals_refuted (finding F20b), C17_replay_duplicate_refuted (precondition)",
+        "content_projection / content_replay : the VALUES handed to a partial visitor, and the values replayed from a tree, equal those of the full read (the Coq events carry the raw body bytes of each delivered attribute, not the parsed values; instruction / exception-table / label events are not in the model's vocabulary); equality of the parsed values is the harness oracle (debug text, PartialEq of rebuilt trees)",
     ],
 }
